@@ -3,6 +3,11 @@
 Correspondence: random construction programs are executed with the real `Circuit` API and, in the
 canonical form `add(off, c, merge)` / `barrier`, by the Lean model (`Model/C01.lean`); compared:
 `compute_unitary()` (tolerance 1e-9 against the exact product) and the iteration ranges (exactly).
+Histories over a pool of circuit objects (nesting by reference, merge, `//`, `@`, barrier, copy(), leaves bound
+to shared variable parameters, set_value / compute_unitary(assign=...)) are sent *as histories* to the Lean heap
+model (`Heap`, `World`, driver request {"hist": …}) and run with the real API; every evaluation, iteration and
+accept/reject decision is compared; a Python mirror (references resolved, numpy product) is the direct oracle.
+Symbolic matrices are evaluated numerically (with values / with symbols substituted afterwards) and compared too.
 """
 from __future__ import annotations
 
@@ -160,7 +165,7 @@ def observe(expr):
         # the symbolic computation (what `.U` reports) evaluated numerically must be the same matrix
         try:
             sym = c.compute_unitary(use_symbolic=True)
-            out["U_sym"] = np.array([[complex(x) for x in row] for row in sym.tolist()], dtype=complex)
+            out["U_sym"] = sym_to_np(sym, leaves=n_leaves(expr))
         except Exception as e:   # an exception of the real code on a legal circuit is a finding, not a harness crash
             out["U_sym_err"] = f"{type(e).__name__}: {str(e)[:150]}"
     return out
@@ -494,10 +499,30 @@ def node_kinds(node, acc):
     return acc
 
 
-def sym_to_np(sym, subs=None):
-    if subs and hasattr(sym, "subs"):       # a circuit made of one full-width `Unitary` reports its numeric matrix
-        sym = sym.subs(subs)
-    return np.array([[complex(x) for x in row] for row in sym.tolist()], dtype=complex)
+SYM_MAX_LEAVES = 40      # sympy's own cost explodes beyond (a 2-mode circuit of 86 components: > 10 s inside sympy)
+
+
+def sym_to_np(sym, subs=None, leaves=None):
+    """numeric value of the entries of a symbolic matrix (optionally after substituting symbols); the expressions of a
+    large circuit are shared DAGs: evaluate with common sub-expressions computed once"""
+    if not hasattr(sym, "subs"):            # a circuit made of one full-width `Unitary` reports its numeric matrix
+        return np.array(sym, dtype=complex)
+    if leaves is not None and leaves <= 10:
+        if subs:
+            sym = sym.subs(subs)
+        return np.array([[complex(x) for x in row] for row in sym.tolist()], dtype=complex)
+    import sympy as sp
+    syms = list(subs) if subs else []
+    f = sp.lambdify(syms, sp.Matrix(sym), modules="numpy", cse=True)
+    out = np.array(f(*[subs[x] for x in syms]), dtype=complex)
+    return out.reshape(sym.shape)
+
+
+def n_leaves(e):
+    if "leaf" in e:
+        return 1
+    return (1 if e.get("lead") is not None else 0) + sum(n_leaves(op["c"]) if "c" in op else 1 for op in e["ops"]) + \
+        sum(1 for op in e["ops"] if op["op"] == "mm")
 
 
 def run_pool_history(chk, hist, count=True):
@@ -602,12 +627,17 @@ def run_pool_history(chk, hist, count=True):
             if via is not None:
                 # the other public way to give values: compute_unitary(assign={name: value}) on a circuit that knows them
                 try:
-                    via.compute_unitary(assign=dict(todo))
+                    ua = np.array(via.compute_unitary(assign=dict(todo)), dtype=complex)
                 except Exception as e:
                     return ("violation", "evaluation-raises-after-history",
                             f"operation #{step}: compute_unitary(assign=...) raised {type(e).__name__}: {str(e)[:120]}", where)
                 if count:
                     chk.branch("hist-set-through-assign")
+                want = node_matrix(resolve(idx[op["via"]], envs[env]))
+                if ua.shape != want.shape or not np.allclose(ua, want, rtol=core.TOL, atol=core.TOL):
+                    return ("violation", "matrix-ignores-parameter-value",
+                            f"operation #{step}: compute_unitary(assign=...) does not return the product of the parts under "
+                            f"the values it was given", where)
             else:
                 for p in params:
                     if p.name in todo:
@@ -779,7 +809,7 @@ def run_pool_history(chk, hist, count=True):
                         f"a binding it should not", where)
             if not np.allclose(u @ u.conj().T, np.eye(m_i), atol=1e-8):
                 return ("violation", "not-unitary", f"after {step} operations compute_unitary() is not unitary", where)
-            if op.get("sym"):
+            if op.get("sym") and len(spec_flat) <= SYM_MAX_LEAVES:
                 kinds = node_kinds(node, set())
                 try:
                     if op["sym"] == 2 and params:
@@ -790,11 +820,11 @@ def run_pool_history(chk, hist, count=True):
                         finally:
                             for p, x in zip(params, vals):
                                 p.set_value(x)
-                        us = sym_to_np(sym, {p._symbol: x for p, x in zip(params, vals)})
+                        us = sym_to_np(sym, {p._symbol: x for p, x in zip(params, vals)}, leaves=len(spec_flat))
                         if count:
                             chk.branch("hist-symbolic-substituted")
                     else:
-                        us = sym_to_np(me.compute_unitary(use_symbolic=True))
+                        us = sym_to_np(me.compute_unitary(use_symbolic=True), leaves=len(spec_flat))
                 except Exception as e:
                     return ("violation", "symbolic-matrix-raises",
                             f"compute_unitary(use_symbolic=True) raised {type(e).__name__}: {str(e)[:150]}", where)
@@ -957,7 +987,7 @@ def run_param_program(chk, expr, count=True):
             for p in all_params:
                 p.reset()
             try:
-                us = sym_to_np(c.compute_unitary(use_symbolic=True), values)
+                us = sym_to_np(c.compute_unitary(use_symbolic=True), values, leaves=n_leaves(expr))
             except Exception as e:
                 return ("violation", "symbolic-matrix-raises", f"compute_unitary(use_symbolic=True) with undefined "
                         f"variables raised {type(e).__name__}: {str(e)[:120]}", {"param_program": expr, "round": rnd})
@@ -1029,7 +1059,7 @@ def run(chk: core.Check):
     for i in range(n):
         m = rng.randint(1, max_m)
         expr = gen_circ(rng, m, rng.randint(0, max_depth), rng.randint(1, max_ops), malformed=(rng.random() < 0.1))
-        if m <= 4 and rng.random() < chk.pick(0.35, 1.0):
+        if m <= 4 and rng.random() < chk.pick(0.35, 1.0) and n_leaves(expr) <= SYM_MAX_LEAVES:
             expr["symbolic"] = True
         batch.append(expr)
     for expr in batch:
